@@ -4,18 +4,22 @@ lines on stdin and prints one line per operation.  Core-only (no Mathlib) so it
 links as a native executable.
 -/
 import Verif.Drv.Runner
+import Verif.Drv.Sync
 import Verif.Drv.RhpClient
 import Verif.Drv.Funding
 import Verif.Drv.KV
 import Verif.Drv.Chain
+import Verif.Drv.Pool
 import Verif.Drv.Seed
 
 open Verif.Drv
 
 def registry : List (String × List (String × Model)) := [
+  ("sync", syncModels),
   ("c10", c10Models),
   ("kv", kvModels),
   ("chain", chainModels),
+  ("pool", poolModels),
   ("seed", seedModels),
   ("funding", fundingModels)
 ]
